@@ -116,6 +116,34 @@ class WarnLog:
         self.events.clear()
 
 
+def run_with_global_step_budget(fn, budget):
+    """Run fn() while counting the function entries of ALL Python code (dependencies included); -> ("returned", steps) /
+    ("exceeded", steps) / ("raised:<type>", steps).  Used only to decide, in logical steps, a case that a wall-clock alarm found suspicious."""
+    tool = 5
+    state = {"n": 0}
+
+    def cb(code, offset):
+        state["n"] += 1
+        if state["n"] > budget:
+            raise StepBudgetExceeded(f"more than {budget} function entries (all code)")
+
+    _mon.use_tool_id(tool, "mv-global-steps")
+    _mon.register_callback(tool, _mon.events.PY_START, cb)
+    _mon.set_events(tool, _mon.events.PY_START)
+    try:
+        try:
+            fn()
+            return "returned", state["n"]
+        except StepBudgetExceeded:
+            return "exceeded", state["n"]
+        except BaseException as e:  # noqa: BLE001
+            return "raised:" + type(e).__name__, state["n"]
+    finally:
+        _mon.set_events(tool, 0)
+        _mon.register_callback(tool, _mon.events.PY_START, None)
+        _mon.free_tool_id(tool)
+
+
 class AuditLog:
     """File / socket audit events whose first argument mentions a sentinel substring."""
 
